@@ -628,7 +628,7 @@ def render_mt(idx, p, names):
     w("                        _ => json!({\"error\": \"no such method\"}),")
     w("                    };")
     w("                    let rb: Value = match kind {")
-    w("                        \"exec\" => match raw(&app_b, &sender, WasmMsg::Execute { contract_addr: addr_b.to_string(), msg: Binary::from(text.as_bytes()), funds: funds.clone() }) { Ok(r) => json!({\"ok\": app_resp_obs(&r)}), Err(e) => json!({\"err\": e}) },")
+    w("                        \"exec\" => match raw(&app_b, &sender, WasmMsg::Execute { contract_addr: addr_b.to_string(), msg: Binary::from(text.as_bytes()), funds: funds.clone() }) { Ok(mut r) => { /* the chain's execute_contract operation = execute + unwrapping of the response data envelope */ r.data = r.data.and_then(|d| svfw::cw_utils::parse_execute_response_data(d.as_slice()).ok().and_then(|x| x.data)); json!({\"ok\": app_resp_obs(&r)}) }, Err(e) => json!({\"err\": e}) },")
     w("                        \"query\" => { let req: QueryRequest<Empty> = QueryRequest::Wasm(WasmQuery::Smart { contract_addr: addr_b.to_string(), msg: Binary::from(text.as_bytes()) });")
     w("                            match app_b.app().wrap().query::<Value>(&req) { Ok(v) => json!({\"ok\": v}), Err(e) => json!({\"err\": e.to_string()}) } }")
     w("                        _ => match app_b.app_mut().sudo(svfw::cw_multi_test::SudoMsg::Wasm(svfw::cw_multi_test::WasmSudo { contract_addr: addr_b.clone(), message: Binary::from(text.as_bytes()) })) { Ok(r) => json!({\"ok\": app_resp_obs(&r)}), Err(e) => json!({\"err\": e.root_cause().to_string()}) },")
